@@ -7,9 +7,11 @@ import (
 	"fmt"
 	"io"
 	"os"
+	"path/filepath"
 	"sort"
 	"strings"
 	"syscall"
+	"time"
 	"unsafe"
 
 	"github.com/logrange/logrange/api"
@@ -23,7 +25,10 @@ import (
 // "restart" would not. The parent drives it with one JSON command per line on stdin, one JSON answer per line on stdout.
 
 type Cmd struct {
-	Op   string   `json:"op"` // write | sync | pipe | delpipe | observe | range | stop
+	Op   string   `json:"op"`             // write | sync | pipe | delpipe | drop | round | observe | range | stop
+	Dest string   `json:"dest,omitempty"` // round: the tags of the pipe's destination partition
+	Cond string   `json:"cond,omitempty"` // pipe: the source condition (default: one that matches no partition)
+	N    int      `json:"n,omitempty"`    // round: the deadline of the wait in ms (default 40 s)
 	Tags string   `json:"tags,omitempty"`
 	Ts   []int64  `json:"ts,omitempty"`
 	Name string   `json:"name,omitempty"`
@@ -47,6 +52,7 @@ type Ans struct {
 	Count   int        `json:"count,omitempty"` // number of partitions the server knows
 	Pipes   []string   `json:"pipes,omitempty"`
 	Events  []int64    `json:"events,omitempty"`
+	Short   bool       `json:"short,omitempty"` // round: the wait ended at its deadline
 }
 
 // crashAtFileSize: from now on the first write that would take a file of this process past k bytes ends the process
@@ -114,7 +120,11 @@ func serveMain(args []string) {
 			out.Encode(Ans{Ok: true})
 		case "pipe":
 			// creating an existing pipe / deleting a missing one is refused and changes nothing: not an error of the scenario
-			_, err := srv.Pipes.CreatePipe(pipe.Pipe{Name: c.Name, TagsCond: "never=matches"})
+			cond := c.Cond
+			if cond == "" {
+				cond = "never=matches"
+			}
+			_, err := srv.Pipes.CreatePipe(pipe.Pipe{Name: c.Name, TagsCond: cond})
 			if err != nil && strings.Contains(err.Error(), "already exists") {
 				err = nil
 			}
@@ -125,6 +135,71 @@ func serveMain(args []string) {
 				err = nil
 			}
 			out.Encode(ans(err))
+		case "drop":
+			// the partition is truncated away completely (TRUNCATE ... MAXSIZE 1 removes every chunk, an empty partition
+			// is deleted). The deletion needs the partition exclusively: a cursor of an earlier query may still hold it for
+			// a moment, so the statement is repeated until the partition is gone (generous deadline)
+			var lastErr error
+			gone := WaitFor(20*time.Second, func() bool {
+				if _, err := srv.Exec("TRUNCATE {" + c.Tags + "} MAXSIZE 1"); err != nil {
+					lastErr = err
+				}
+				_, err := srv.Partitions.GetParitionInfo(c.Tags)
+				return err != nil && strings.Contains(err.Error(), "not found")
+			})
+			if !gone {
+				out.Encode(Ans{Err: fmt.Sprintf("the partition %s is still there after TRUNCATE MAXSIZE 1 (last error: %v)", c.Tags, lastErr)})
+				continue
+			}
+			out.Encode(Ans{Ok: true})
+		case "round":
+			// one round of a pipe from the partition Tags to the partition Dest. The pipe's worker must never be between
+			// reading its source and asking its cursor for the position while source records get flushed (what is flushed
+			// in that window is skipped by the pipe for ever: a defect of the pipe, not of persistence), so the source is
+			// flushed only while the worker waits for new data or does not run:
+			//   1. flush every journal: what earlier rounds left buffered in the source becomes readable, a waiting worker
+			//      wakes up and forwards it;
+			//   2. write Ts to the source (acknowledged, stays buffered): a worker that does not run is started by the
+			//      notification and forwards what step 1 made readable;
+			//   3. wait until the destination holds as many events as the source had flushed after step 1 (only the
+			//      destination is flushed meanwhile) and the pipe's
+			//      progress file was rewritten since step 1 (the worker is past the position query of this round).
+			t0 := time.Now()
+			pf := filepath.Join(dir, "pipes", "pipe"+c.Name+".dat")
+			before := statOf(pf)
+			srv.JCtrl.(journal.Controller).Visit(ctx, func(j journal.Journal) bool {
+				j.Sync()
+				return true
+			})
+			// what the pipe has to have forwarded at the end of the round: the source's flushed events, as they are now
+			have, _ := readAll(ctx, srv, c.Tags, nil)
+			evs := make([]*api.LogEvent, len(c.Ts))
+			for i, t := range c.Ts {
+				evs[i] = &api.LogEvent{Timestamp: t, Message: fmt.Sprintf("e%d", t)}
+			}
+			if err := srvWrite(ctx, srv, c.Tags, evs); err != nil {
+				out.Encode(ans(err))
+				continue
+			}
+			deadline := 40 * time.Second
+			if c.N > 0 {
+				deadline = time.Duration(c.N) * time.Millisecond
+			}
+			var got []int64
+			done := WaitFor(deadline, func() bool {
+				if pi, err := srv.Partitions.GetParitionInfo(c.Dest); err == nil {
+					if j, err := srv.JCtrl.(journal.Controller).GetOrCreate(ctx, pi.JournalId); err == nil {
+						j.Sync()
+					}
+				}
+				got, _ = readAll(ctx, srv, c.Dest, nil)
+				if len(got) >= len(have) && statOf(pf) != before {
+					return true
+				}
+				time.Sleep(5 * time.Millisecond)
+				return false
+			})
+			out.Encode(Ans{Ok: true, Events: got, Count: int(time.Since(t0) / time.Millisecond), Short: !done})
 		case "observe":
 			a := Ans{Ok: true}
 			for _, t := range c.Know {
@@ -170,6 +245,15 @@ func serveMain(args []string) {
 			out.Encode(Ans{Err: "unknown op " + c.Op})
 		}
 	}
+}
+
+// statOf: modification time and size of a file ("" if it is not there)
+func statOf(fn string) string {
+	fi, err := os.Stat(fn)
+	if err != nil {
+		return ""
+	}
+	return fmt.Sprintf("%d/%d", fi.ModTime().UnixNano(), fi.Size())
 }
 
 func ans(err error) Ans {
